@@ -792,6 +792,17 @@ void SimMutex::lock() {
 	r.hash = mix(r.hash, 0xD100 ^ ((uint64_t)me << 56) ^ ((uint64_t)reg << 16));
 	r.shash = mix(r.shash, 0xD100 ^ ((uint64_t)me << 56) ^ ((uint64_t)reg << 16));
 }
+bool SimTryMutex::try_lock() {
+	Run &r = *R;
+	sched_point(K_SYNC);
+	int me = r.cur; Task &t = r.tasks[me];
+	if (owner == me || shared_by[me]) violation("self_deadlock", "task %d try_lock()s mutex #%u which it already holds", me, reg);
+	bool ok = owner == -1 && shared == 0;
+	if (ok) { n_lock++; owner = me; t.held++; t.clk.join(clk); spin_reset(t); }
+	r.hash = mix(r.hash, 0xD180 ^ ((uint64_t)me << 56) ^ ((uint64_t)reg << 16) ^ (ok ? 1 : 0));
+	r.shash = mix(r.shash, 0xD180 ^ ((uint64_t)me << 56) ^ ((uint64_t)reg << 16) ^ (ok ? 1 : 0));
+	return ok;
+}
 static void wake_blocked(SimMutex *m) {
 	Run &r = *R;
 	for (int u = 1; u <= r.ntasks; u++) if (r.tasks[u].st == T_BLOCKED && r.tasks[u].blocked_on == m) { r.tasks[u].st = T_RUN; r.tasks[u].blocked_on = nullptr; }
